@@ -139,7 +139,8 @@ func (g *gateLogger) IsDebug() bool { return true }
 
 // SrvCfg configures a server under test.
 type SrvCfg struct {
-	TLS            *tls.Config // listener TLS config (nil = plain)
+	TLS            *tls.Config // listener TLS config (nil = plain), given to Run
+	CtorTLS        *tls.Config // a TLS config given to NewServer (Run's is the one that counts)
 	DisableRecover bool
 	ReadTimeout    time.Duration
 	WriteTimeout   time.Duration
@@ -199,6 +200,9 @@ func newSrv(cfg SrvCfg) (*Srv, error) {
 		}
 	}
 	opts := []gldap.Option{gldap.WithLogger(s.Log.logger(lvl))}
+	if cfg.CtorTLS != nil {
+		opts = append(opts, gldap.WithTLSConfig(cfg.CtorTLS))
+	}
 	if cfg.DisableRecover {
 		opts = append(opts, gldap.WithDisablePanicRecovery())
 	}
